@@ -1290,6 +1290,10 @@ Hread(int32 access_id, int32 length, void *data)
     if (length == 0 || length + access_rec->posn > data_len)
         length = data_len - access_rec->posn;
 
+    /* nothing to read when positioned at or beyond the end of the element */
+    if (length < 0)
+        length = 0;
+
     /* read in data */
     if (HP_read(file_rec, data, length) == FAIL)
         HGOTO_ERROR(DFE_READERROR, FAIL);
